@@ -151,7 +151,7 @@ def install_summaries(e):
     e.summaries.append((re.compile(r'get_next_sqrt_price_from_b_round_down$'), SP.as_summary(SP.spec_next_price_from_b, SP.pack_u128)))
 
 
-def step_task(exact_in, a_to_b):
+def step_task(exact_in, a_to_b, keep=None):
     def task(ctx):
         T.reset()
         e = M.Engine(ctx.mir())
@@ -181,6 +181,7 @@ def step_task(exact_in, a_to_b):
             nw = [ev[3] for ev in path.trace if ev[1] == 'nowrap']
             if nw: goals['f_no_wrap'] = T.and_(*nw)
             for gname, g in goals.items():
+                if keep and gname not in keep: continue
                 o = M.Obligation(f'step:{tag}:path{i}:{gname}', path.pc, g)
                 o.pathid = i
                 o.replay = dict(fn='compute_swap', args=args,
